@@ -137,7 +137,7 @@ def print_assumptions(module, theorems):
     """runs coqc on a scratch file; returns {theorem: assumptions text}"""
     d = tempfile.mkdtemp(prefix="wv_pa_")
     try:
-        body = "From Wencry Require Import %s.\n" % module
+        body = "From Wencry Require Import %s.\n" % (module if isinstance(module, str) else " ".join(module))
         for t in theorems:
             body += 'Goal True. idtac "@@BEGIN %s". Abort.\nPrint Assumptions %s.\nGoal True. idtac "@@END". Abort.\n' % (t, t)
         p = os.path.join(d, "PA.v")
@@ -317,12 +317,23 @@ class Check:
         """gen + make + scans. Sets self.proof_ok."""
         self.gen_ok, gen_out = run_gen()
         log(gen_out)
-        vo = module + ".vo"
-        ok, out = coq_make([vo, "Extract.vo"])
+        modules = [module] if isinstance(module, str) else list(module)
+        vos = [m + ".vo" for m in modules]
+        vo = " ".join(vos)
+        ok, out = coq_make(vos + ["Extract.vo"])
         self.make_tail = out[-3000:]
-        obl, dis, detail = count_obligations(module + ".v")
+        obl = dis = 0
+        detail = {}
+        for m in modules:
+            o, d_, det = count_obligations(m + ".v")
+            for f, v in det.items():
+                if f not in detail:
+                    detail[f] = v
+        obl = sum(v["statements"] for v in detail.values())
+        dis = sum(v["statements"] for v in detail.values() if v["compiled"])
         hits = forbidden_scan()
-        pa = print_assumptions(module, theorems) if os.path.exists(os.path.join(COQ, vo)) else {}
+        all_vo = all(os.path.exists(os.path.join(COQ, v)) for v in vos)
+        pa = print_assumptions(modules, theorems) if all_vo else {}
         closed = all("Closed under the global context" in pa.get(t, "") for t in theorems)
         axioms = {t: pa.get(t, "(not available)") for t in theorems}
         self.cov.update({
@@ -331,7 +342,7 @@ class Check:
             "theorems": theorems, "print_assumptions": axioms, "per_file": detail,
             "forbidden_constructs_found": hits, "translator_ok": self.gen_ok,
         })
-        vo_ok = os.path.exists(os.path.join(COQ, vo)) and ok
+        vo_ok = all_vo and ok
         self.proof_ok = bool(self.gen_ok and vo_ok and not hits and "_error" not in pa and (closed or self.allowed_axioms(pa, theorems)))
         if not self.gen_ok:
             self.broken = "translator tools/gen.py: " + gen_out
